@@ -150,3 +150,124 @@ func verifHarness_C11_array_blocks_of_pointers() {
 	verifKeepAlive(r)
 	verifReach("end")
 }
+
+// C06 / C05: an array whose later block declares ANY count (every int64,
+// positive or size-prefixed negative) after a first block that already put
+// items into the slice: the count is added to the current length before the
+// slice is grown. Whatever the declared count, the decoder returns a value or
+// an error, and every item it stores lands inside the slice's backing array
+// (engine: every access inside its object).
+func verifHarness_C06_array_later_block_count() {
+	verifAllocMax(64)
+	verifUnwind(16)
+	s, err := SchemaForType(verifC05Blocks{})
+	verifAssume(err == nil)
+	c, err := s.Codec(verifC05Blocks{})
+	verifAssume(err == nil)
+	n1 := 1 + verifChoice("first", 2)
+	buf := refZZ(int64(n1))
+	for i := 0; i < n1; i++ {
+		buf = append(buf, refZZ(int64(verifSmall("a")))...)
+	}
+	count := verifNondetI64("count")
+	buf = append(buf, refZZ(count)...)
+	if count < 0 {
+		buf = append(buf, refZZ(int64(verifSmall("blocksize")))...)
+	}
+	// up to three one-byte items follow, then the input ends or the array is closed
+	k := verifChoice("items", 4)
+	for i := 0; i < k; i++ {
+		buf = append(buf, refZZ(int64(verifSmall("b")))...)
+	}
+	if verifChoice("terminated", 2) == 1 {
+		buf = append(buf, 0)
+	}
+	var out verifC05Blocks
+	out.G0, out.G1 = [2]byte{0xA5, 0x5A}, [2]byte{0xA5, 0x5A}
+	out.X = 0x1122334455667788
+	r := NewReadBuf(buf)
+	err = c.Read(r, unsafe.Pointer(&out))
+	verifObserveBool("err", err != nil)
+	verifAssert(len(out.F) <= cap(out.F), "C06:slice-length-within-its-capacity")
+	verifAssert(out.G0 == [2]byte{0xA5, 0x5A} && out.G1 == [2]byte{0xA5, 0x5A} && out.X == 0x1122334455667788, "C06:guards-intact")
+	verifReach("end")
+}
+
+// C06: every single-field mutation of a valid encoding. A valid encoding of an
+// arbitrary datum (collections sent as two blocks, plain or size-prefixed) is
+// produced by the reference encoder with ONE of its structural varints - a
+// string / bytes / map-key length, a block count, a block byte size, a union
+// selector, the terminator - replaced by an arbitrary value of one of four
+// classes: one byte (-64..63), two bytes, near MaxInt64, near MinInt64 (ten
+// bytes; sums with lengths and offsets overflow). Decoding it - read path
+// into a matching target, skip path into an empty struct - returns a value or
+// an error: no panic, no access outside an object, loops and allocations
+// bounded by the input.
+func verifHarness_C06_field_mutation() {
+	str, lng, null := Schema{Type: "string"}, Schema{Type: "long"}, Schema{Type: "null"}
+	arr := func(x Schema) Schema { return Schema{Type: "array", Object: &SchemaObject{Items: x}} }
+	mp := func(x Schema) Schema { return Schema{Type: "map", Object: &SchemaObject{Values: x}} }
+	un := func(x ...Schema) Schema { return Schema{Type: "union", Union: x} }
+	var fs Schema
+	var proto any
+	var mk func() unsafe.Pointer
+	pairs := []int{0, 3, 5, 6, 9}
+	if verifThorough() {
+		pairs = []int{0, 1, 2, 3, 4, 5, 6, 7, 8, 9}
+	}
+	switch pairs[verifChoice("pair", len(pairs))] {
+	case 0:
+		fs, proto, mk = str, &verifC05_field_string{}, func() unsafe.Pointer { return unsafe.Pointer(new(verifC05_field_string)) }
+	case 1:
+		fs, proto, mk = Schema{Type: "bytes"}, &verifC05_field_bytes{}, func() unsafe.Pointer { return unsafe.Pointer(new(verifC05_field_bytes)) }
+	case 2:
+		fs, proto, mk = arr(str), &verifC05_slice_string{}, func() unsafe.Pointer { return unsafe.Pointer(new(verifC05_slice_string)) }
+	case 3:
+		fs, proto, mk = arr(lng), &verifC05_slice_int64{}, func() unsafe.Pointer { return unsafe.Pointer(new(verifC05_slice_int64)) }
+	case 4:
+		fs, proto, mk = mp(lng), &verifC05_map_int64{}, func() unsafe.Pointer { return unsafe.Pointer(new(verifC05_map_int64)) }
+	case 5:
+		fs, proto, mk = mp(str), &verifC05_map_string{}, func() unsafe.Pointer { return unsafe.Pointer(new(verifC05_map_string)) }
+	case 6:
+		fs, proto, mk = un(null, str), &verifC05_ptr_string{}, func() unsafe.Pointer { return unsafe.Pointer(new(verifC05_ptr_string)) }
+	case 7:
+		fs, proto, mk = un(lng, null), &verifC05_ptr_int64{}, func() unsafe.Pointer { return unsafe.Pointer(new(verifC05_ptr_int64)) }
+	case 8:
+		fs, proto, mk = arr(un(null, lng)), &verifC05_slice_ptrI64{}, func() unsafe.Pointer { return unsafe.Pointer(new(verifC05_slice_ptrI64)) }
+	case 9:
+		// general union: only the skip path exists for it
+		fs = un(null, str, lng)
+	}
+	if proto == nil || verifChoice("skip", 2) == 1 {
+		var empty struct{}
+		proto, mk = &empty, func() unsafe.Pointer { return unsafe.Pointer(new(struct{})) }
+	}
+	s := Schema{Type: "record", Object: &SchemaObject{Name: "r", Fields: []SchemaRecordField{{Name: "F", Type: fs}, {Name: "Z", Type: lng}}}}
+	c, err := s.Codec(proto)
+	verifAssume(err == nil)
+	d := refGenNarrow(&s, "d", 0)
+	sized := verifChoice("sized", 2) == 1
+	_, nvar := refEncodeMutated(&s, &d, &refChoices{split: []int{1}, sized: []bool{sized}}, -1, 0)
+	verifAssume(nvar > 0)
+	at := verifChoice("at", nvar)
+	var val int64
+	switch verifChoice("class", 4) {
+	case 0:
+		val = int64(int8(verifNondetU8("val"))) >> 1 // -64..63
+	case 1:
+		val = int64(int16(verifNondetU16("val")) >> 3) // two bytes at most
+	case 2:
+		val = 9223372036854775807 - int64(verifNondetU16("val"))
+	case 3:
+		val = -9223372036854775808 + int64(verifNondetU16("val"))
+	}
+	enc, _ := refEncodeMutated(&s, &d, &refChoices{split: []int{1}, sized: []bool{sized}}, at, val)
+	n := len(enc)
+	verifUnwind(2*n + 8)
+	verifAllocMax(n + 4)
+	r := NewReadBuf(enc)
+	err = c.Read(r, mk())
+	verifObserveBool("err", err != nil)
+	verifKeepAlive(r)
+	verifReach("end")
+}
